@@ -423,24 +423,28 @@ def case_label_family():
     out = []
     vals = [2147483647, 2147483648, 4294967295, 4294967296, 4294967297, (1 << 40) + 1, (1 << 63) - 1,
             -2147483648, -2147483649, -4294967297, -((1 << 63) - 1)]
-    for v in vals:
-        prog = [("label", "main", []), ("assign", ("var", "local", "z"), ("int", 0))]
-        low = v & 0xFFFFFFFF
-        low_s = low - (1 << 32) if low >= 1 << 31 else low
-        others = sorted(str(x) for x in {low_s, 1, 0} if x != v)
-        for scrut in (lit(v), ("bin", "add", ("var", "local", "z"), lit(v))):
-            body = []
-            for o in others:
-                body += [("case", o), ("print", True, [("str", "wrong case"), ("str", o)]), ("brk",)]
-            body += [("case", str(v)), ("print", True, [("str", "right case")]), ("brk",),
-                     ("case", "default"), ("print", True, [("str", "no case")])]
-            prog.append(("switch", scrut, body))
-        if low_s != v:
-            # the truncated value must not select the wide label
-            prog.append(("switch", lit(low_s), [("case", str(v)), ("print", True, [("str", "wide label selected by its low 32 bits")]), ("brk",),
-                                               ("case", "default"), ("print", True, [("str", "ok")])]))
-        prog.append(("end", None))
-        out.append({"prog": prog, "label": "main", "args": [], "consts": {}})
+    for with_low in (False, True):
+        for v in vals:
+            prog = [("label", "main", []), ("assign", ("var", "local", "z"), ("int", 0))]
+            low = v & 0xFFFFFFFF
+            low_s = low - (1 << 32) if low >= 1 << 31 else low
+            if with_low and low_s == v:
+                continue
+            # second round: the value's low 32 bits are a case label of their own in the same switch
+            others = sorted(str(x) for x in ({low_s, 1, 0} if with_low else {1, 0}) if x != v)
+            for scrut in (lit(v), ("bin", "add", ("var", "local", "z"), lit(v))):
+                body = []
+                for o in others:
+                    body += [("case", o), ("print", True, [("str", "wrong case"), ("str", o)]), ("brk",)]
+                body += [("case", str(v)), ("print", True, [("str", "right case")]), ("brk",),
+                         ("case", "default"), ("print", True, [("str", "no case")])]
+                prog.append(("switch", scrut, body))
+            if low_s != v and not with_low:
+                # the truncated value must not select the wide label
+                prog.append(("switch", lit(low_s), [("case", str(v)), ("print", True, [("str", "wide label selected by its low 32 bits")]), ("brk",),
+                                                   ("case", "default"), ("print", True, [("str", "ok")])]))
+            prog.append(("end", None))
+            out.append({"prog": prog, "label": "main", "args": [], "consts": {}})
     return out
 
 
